@@ -13,6 +13,8 @@ VARIANTS = {
                           # the swiper (watch / announce loops around the rotation points) compiled on its own on the virtual clock,
                           # context deadlines included
                           {"src": "tinder_swiper.go", "mode": "time+ctx", "dst": "internal/zzverif/sw/tinder_swiper.go", "pkg": "sw"}]},
+    # the metadata index with its lock visible to the scheduler (two writers on one store)
+    "sched-index": {"rewrite": ["store_metadata_index.go"], "extra_harness": ["queue_export"]},
     # secret store with its mutexes visible to the scheduler (datastore operations are points via the harness datastore)
     "sched-secret": {"rewrite": ["pkg/secretstore/*.go"]},
     # notify primitive and its three clients; the connectedness manager and the peer cache are compiled on their
@@ -174,12 +176,17 @@ CHECKS = {
                      "counted as model_checking: states = attacker knowledge states (harvest combinations), transitions = partial handshakes executed against the real code"],
     ),
     "C04": dict(
-        harness="root", run="TestVerifC04", level="model_checking",
+        level="model_checking",
+        parts=[
+            dict(name="histories", harness="root", run="TestVerifC04"),
+            dict(name="index-passes", harness="root", run="TestVerifC04Idx", variant="sched-index", gomaxprocs=2),
+        ],
         technique="explicit-state exploration of real metadata stores: every operation history up to a depth on a real writer (deduplicated by the resulting log), x every delivery plan of the log to fresh real replicas (every split into batches, several orders per batch, reopen at every position), compared with the writer, with a reference model and after re-indexing",
         rule="states = distinct logs produced by the real writer; transitions = real store operations (append, batch delivery through the store's replication event path, reopen, reload); every explored trace runs the implementation; classes = (scenario, log length, number of batches, reopen, outcome)",
         assumptions=["entries reach a replica through the store's own replication-complete path (EventLoadEnd with single-entry logs, as the replicator produces), not through pub-sub/bitswap",
                      "histories to depth 2-4 over {7 contact operations x contacts X,Y, contact-request switch/seed, group join/leave, credential}; multi-member history of 8 entries by 3 devices; 12 concurrent two-writer scenarios",
-                     "batches are causally closed, as the replicator's are"],
+                     "batches are causally closed, as the replicator's are",
+                     "part 'index-passes' (added after a sub-agent's change took the log snapshot outside the index lock): two (thorough: three) tasks write to one real account-group store at the same moment under the controlled scheduler (scheduling points at the lock operations of store_metadata_index.go, preemption bound 2 / 3); once every write has returned, the reported state must not change when the unchanged log is indexed once more"],
     ),
     "C13": dict(
         harness="root", run="TestVerifC13", level="model_checking",
@@ -189,11 +196,16 @@ CHECKS = {
                      "GroupMetadataList / GroupMessageList are invoked in-process on a real service for every terminating (since, until or until_now, reverse) combination over the account group's logs (3 / 6 operations); the subscription mode (no upper bound) is exercised only by C19"],
     ),
     "C07": dict(
-        harness="root", run="TestVerifC07", level="model_checking",
+        level="model_checking",
+        parts=[
+            dict(name="lifecycle", harness="root", run="TestVerifC07"),
+            dict(name="service", harness="root", run="TestVerifC07Svc"),
+        ],
         technique="explicit-state BFS over the reference contact lifecycle: in every reached reference state every contact operation (allowed or not, on X, Y and the own key) and a malformed-contact catalogue are applied to a real account-group store replayed to that state; writer, reopened writer and a replica are compared with the table-driven reference",
         rule="states = distinct reference states (per contact: state, seed, metadata); transitions = real store operations; successors by replaying the history on a fresh real store + one real call; classes = (operation, state it was applied in, allowed, outcome)",
         assumptions=["reference = DESIGN.md appendix A (transition table + seed/metadata rule)",
                      "one contact to depth 4/6, two contacts to depth 2/3",
+                     "part 'service' (added after a sub-agent's change de-duplicated requests in the service method): every history to depth 3/4 over {request with 3 seed/metadata variants, sent, received, discard, accept, block, unblock} issued through the service methods of api_contactrequest.go / api_contact.go on a real service, each history on a contact key of its own; allowed/refused, nothing appended on refusal, and the reported state, seed and metadata against the reference lifecycle",
                      "a nil *ShareableContact at the store API is a caller bug, not a malformed contact: it is exercised at the service boundary by C19"],
     ),
     "C03": dict(
